@@ -3,7 +3,12 @@ import Sourmash.Model.Nodegraph
 import Sourmash.Spec.Khmer
 /-! C16 driver: nodegraph file format.  Model column = `NG.G.save` / `NG.G.load` (32-bit block model
 of the code); spec column = the khmer layout computed from the bit sets (`Khmer.file`), never
-through the block model. -/
+through the block model.
+
+`sparse` cases (tables of 8–64 Mbit with a handful of bits, compression ratios above 1000:1): for
+`count`, `spd` and `sp <route> <level>` the model column is `-` and the spec column is the reference
+digest computed from the request lines alone (`Sparse`: `h mod size` positions, the khmer layout
+of their bytes) — nothing of the size of a table is ever built. -/
 open Driver
 
 /-- spec-level state: k, occupied, per table (size, bitmap) -/
@@ -12,9 +17,19 @@ structure SpecG where
   occ : Nat
   tables : List (Nat × Array Bool)
 
+/-- reference state of the `sparse` cases (tables of 16–64 Mbit holding a handful of bits): k,
+    the occupied count and, per table, its size and the ascending list of set bits — computed
+    directly from the request lines (`h mod size`), never through a block list or a byte list of
+    the table's length. -/
+structure Sparse where
+  k : Nat
+  occ : Nat
+  tables : List (Nat × List Nat)
+
 structure St where
   g : Option NG.G := none
   s : Option SpecG := none
+  sp : Option Sparse := none
 
 def bytesToU8 (l : List Nat) : List UInt8 := l.map UInt8.ofNat
 def u8ToBytes (l : List UInt8) : List Nat := l.map UInt8.toNat
@@ -68,6 +83,50 @@ def specCount (s : SpecG) (h : Nat) : SpecG :=
   { s with occ := if newFirst then s.occ + 1 else s.occ,
            tables := s.tables.map (fun t => (t.1, t.2.setIfInBounds (h % t.1) true)) }
 
+/-! ### huge sparse tables: the reference digest -/
+
+def insertAsc (x : Nat) : List Nat → List Nat
+  | [] => [x]
+  | y :: t => if x < y then x :: y :: t else if x == y then y :: t else y :: insertAsc x t
+
+/-- `count h` on the reference state: bit `h mod size` of every table; the answer is 1 iff some table
+    did not have it; `occupied` counts the new bits of the first table -/
+def Sparse.count (s : Sparse) (h : Nat) : Sparse × Bool :=
+  let isNew := s.tables.any (fun t => !(t.2.contains (h % t.1)))
+  let newFirst := match s.tables with
+    | (size, ones) :: _ => !(ones.contains (h % size))
+    | [] => false
+  ({ s with occ := if newFirst then s.occ + 1 else s.occ,
+            tables := s.tables.map (fun t => (t.1, insertAsc (h % t.1) t.2)) }, isNew)
+
+def hex2 (b : Nat) : String := String.ofList [hexDigit (b / 16 % 16), hexDigit (b % 16)]
+
+/-- the non-zero bytes `(offset, value)` of a little-endian field of `n` bytes at `off` -/
+def leNonzero (off v n : Nat) : List (Nat × Nat) :=
+  ((List.range n).map (fun i => (off + i, v / 256 ^ i % 256))).filter (·.2 != 0)
+
+/-- the non-zero data bytes of one table whose data start at `off`: bit b lives in byte b/8, bit b%8
+    (khmer layout); `ones` ascending, so equal byte indices are adjacent -/
+def dataNonzero (off : Nat) (ones : List Nat) : List (Nat × Nat) :=
+  (ones.foldl (fun (acc : List (Nat × Nat)) b =>
+    match acc with
+    | (o, v) :: t => if o == off + b / 8 then (o, v ||| 2 ^ (b % 8)) :: t else (off + b / 8, 2 ^ (b % 8)) :: acc
+    | [] => [(off + b / 8, 2 ^ (b % 8))]) []).reverse
+
+/-- length and non-zero bytes of the khmer file of the reference state: "OXLI" 4 2, k (u32 LE),
+    table count (u8), occupied (u64 LE), then per table its size (u64 LE) and size/8+1 data bytes -/
+def Sparse.file (s : Sparse) : Nat × List (Nat × Nat) :=
+  let hdr := [(0, 0x4f), (1, 0x58), (2, 0x4c), (3, 0x49), (4, 4), (5, 2)] ++ leNonzero 6 s.k 4 ++
+             leNonzero 10 s.tables.length 1 ++ leNonzero 11 s.occ 8
+  s.tables.foldl (fun (acc : Nat × List (Nat × Nat)) t =>
+    (acc.1 + 8 + t.1 / 8 + 1, acc.2 ++ leNonzero acc.1 t.1 8 ++ dataNonzero (acc.1 + 8) t.2)) (19, hdr)
+
+def Sparse.digest (s : Sparse) : String :=
+  let (len, nz) := s.file
+  s!"k={s.k} occ={s.occ} n={s.tables.length} t=" ++
+  ";".intercalate (s.tables.map (fun t => s!"{t.1}:{t.2.length}:{showNats t.2}")) ++
+  s!" len={len} nz=" ++ ",".intercalate (nz.map (fun e => s!"{e.1}:{hex2 e.2}"))
+
 def saveHex (g : NG.G) : String :=
   match g.save with
   | none => "PANIC"
@@ -80,8 +139,27 @@ def stepC16 (st : St) (ws : List String) : St × Resp :=
     ({ g := some (NG.G.new sz k.toNat!),
        s := some { k := k.toNat!, occ := 0, tables := sz.map (fun n => (n, Array.replicate n false)) } },
      { model := "ok" })
+  | ["case", _, "sparse", k, sizes] =>
+    ({ sp := some { k := k.toNat!, occ := 0, tables := (natList sizes).map (fun n => (n, [])) } }, { model := "ok" })
   | "case" :: _ => ({}, { model := "ok" })
+  -- huge sparse tables: the block-list model is not run (a 64 Mbit table is 2 M list cells per
+  -- table and 8 MB of byte list per save); the spec column is the reference digest computed from
+  -- the request lines, the model column stays `-`
+  | ["spd"] =>
+    match st.sp with
+    | some s => (st, { model := "-", spec := s.digest })
+    | none => (st, { model := "nograph" })
+  | ["sp", _route, _level] =>
+    -- every level of nodegraph_to_buffer and every loader must give back the same graph
+    match st.sp with
+    | some s => (st, { model := "-", spec := s.digest ++ " same=true" })
+    | none => (st, { model := "nograph" })
   | ["count", h] =>
+    match st.sp with
+    | some s =>
+      let (s', r) := s.count h.toNat!
+      ({ st with sp := some s' }, { model := "-", spec := if r then "1" else "0" })
+    | none =>
     match st.g, st.s with
     | some g, some s =>
       let (g', r) := g.count h.toNat!
